@@ -56,8 +56,10 @@ RFloor(a)  == LET p == RToPair(a) IN
               IF p[1] >= 0 THEN p[1] \div p[2] ELSE -((-p[1] + p[2] - 1) \div p[2])
 RECURSIVE RPow(_, _)
 RPow(a, k) == IF k = 0 THEN "1" ELSE IF k > 0 THEN RMul(a, RPow(a, k - 1)) ELSE RDiv("1", RPow(a, -k))
-RECURSIVE RSum(_)
-RSum(s)    == IF s = <<>> THEN "0" ELSE RAdd(Head(s), RSum(Tail(s)))
+\* sum of the values of a function with finite domain (in particular a sequence)
+RSum(f)    == LET RECURSIVE go(_)
+                  go(D) == IF D = {} THEN "0" ELSE LET x == CHOOSE y \in D : TRUE IN RAdd(f[x], go(D \ {x}))
+              IN go(DOMAIN f)
 RDot(s, t) == RSum([i \in DOMAIN s |-> RMul(s[i], t[i])])
 \* binomial coefficient C(n,k) as a rational (0 outside 0 <= k <= n)
 RECURSIVE RBinom(_, _)
@@ -75,6 +77,10 @@ RSq(a)     == RMul(a, a)
 RHalf(a)   == RDiv(a, "2")
 \* |a - b| <= tol * scale
 RClose(a, b, tol, scale) == RLeq(RAbs(RSub(a, b)), RMul(tol, scale))
+\* tokens a recorder may write for non-finite floats
+IsNum(a)   == a \notin {"nan", "inf", "-inf"}
+\* |got - exact| <= tau * |exact| + floor   (got must be a finite number)
+RCloseRel(got, exact, tau, floor) == IsNum(got) /\ RLeq(RAbs(RSub(got, exact)), RAdd(RMul(tau, RAbs(exact)), floor))
 RSeqSum(s)    == RSum(s)
 RSeqMaxAbs(s) == LET RECURSIVE go(_, _)
                      go(i, m) == IF i > Len(s) THEN m ELSE go(i + 1, RMax(m, RAbs(s[i])))
